@@ -141,7 +141,8 @@ def run(ctx):
             ctx.violation('raises:%s' % method, 'nd_scipy.Jacobian(f, method=%r, step=%r)(x) raises %r' % (method, step, ex), desc)
             continue
         ctx.count(1, ('jac-length-scales', method))
-        colscale = np.max(np.abs(exact), axis=0)
+        # (the natural size of d/dx_j is 1/s_j; where cos(u) + u is nearly zero -- u close to -0.739 -- the entry itself is no yardstick)
+        colscale = np.maximum(np.max(np.abs(exact), axis=0), 1.0 / s)
         if np.shape(J) != (n, n) or not np.all(np.abs(J - exact) <= 1e-3 * colscale[None, :]):
             ctx.violation('jacobian-value:relative-step:%s' % method, 'nd_scipy.Jacobian(method=%r, step=%r) at coordinates with length scales %r: entries differ from the analytic Jacobian by %.3g relative to their column' % (
                 method, step, s.tolist(), float(np.max(np.abs(J - exact) / colscale[None, :])) if np.shape(J) == (n, n) else float('nan')), desc)
